@@ -56,8 +56,8 @@ func pickSeed(r *hlib.Rand) int {
 
 func gen(r *hlib.Rand, n int, tier, profile string, emit func(string, ...any)) {
 	if tier == "thorough" {
-		// the complete grid of DESIGN §5 C25: every length 0..4096 x 8 start offsets mod 32 x the six
-		// fixed seeds + one random x six patterns
+		// the grid of DESIGN §5 C25: every length 0..4096 x 8 start offsets mod 32 x the six fixed seeds +
+		// one random; the pattern rotates (one draw per grid point and generator seed)
 		offs := []int{0, 1, 2, 3, 4, 8, 16, 31}
 		for ln := 0; ln <= 4096; ln++ {
 			for _, off := range offs {
@@ -66,9 +66,7 @@ func gen(r *hlib.Rand, n int, tier, profile string, emit func(string, ...any)) {
 					if si < len(seeds) {
 						sd = seeds[si]
 					}
-					for kind := 0; kind < 6; kind++ {
-						emit("pat %d %d %d %d %d", kind, r.U64()>>1, ln, off, sd)
-					}
+					emit("pat %d %d %d %d %d", r.Intn(6), r.U64()>>1, ln, off, sd)
 				}
 			}
 		}
